@@ -48,6 +48,9 @@ func c05Run(f []string) string {
 	if f[0] == "atrace" {
 		return aggTraceRun(f)
 	}
+	if ans, ok := c05LocksetRun(f); ok {
+		return ans
+	}
 	if f[0] != "agg" {
 		return "bad-op"
 	}
@@ -177,6 +180,7 @@ func c05Gen(r *Rand, tier string) []string {
 		script := fmt.Sprintf("%d:n,0:n:%d", len(data)+1, Pick(r, []int{103, 108, 115, 125}))
 		out = append(out, fmt.Sprintf("agg %s %d %d %d %s %d %d", HexList([][]byte{data}), Pick(r, []int{1, 2}), 1, 1, script, 0, Pick(r, []int{50, 70})))
 	}
+	out = append(out, c05LocksetGen(r, tier)...)
 	return append(out, aggTraceGen(r, tier)...)
 }
 
@@ -196,6 +200,9 @@ func c05Stats(cases []string) map[string]int {
 		f := strings.Fields(c)
 		if f[0] == "atrace" {
 			traceStats(st, c)
+			continue
+		}
+		if c05LocksetStats(st, c) {
 			continue
 		}
 		st["workers."+f[2]]++
